@@ -423,6 +423,11 @@ func (f *PartialFamily) Step(n *Node, op Op) StepResult {
 		fmt.Fprintf(&sb, "F:%s:%s:%s;", fr.prev.Key(), boolKey(fr.mustPrev), fr.op.String())
 	}
 	res.Key = sb.String()
+	// the stored model only serves Ops() (which asks whether there is something to undo): every
+	// transition replays the history from scratch, so drop all frames but the newest to save memory
+	if len(md.stack) > 1 {
+		md.stack = md.stack[len(md.stack)-1:]
+	}
 	res.Next = &Node{Hist: hist, Model: md}
 	return res
 }
